@@ -117,7 +117,10 @@ type FakeRaft struct {
 	part      *Part
 	mu        sync.Mutex
 	Pending   []pb.Entry
-	Log       []pb.Entry // everything committed so far (for replay on another replica)
+	// Cancels[i] is the cancel function raft was given with Pending[i] (raft calls it when it drops
+	// pending proposals, e.g. at a leader transfer); nil entries for proposals made without one
+	Cancels []context.CancelFunc
+	Log     []pb.Entry // everything committed so far (for replay on another replica)
 	next      uint64
 	Term      uint64
 	// Immediate: commit and apply inside Propose (what a one-replica group does, minus the goroutines).
@@ -143,6 +146,7 @@ func (f *FakeRaft) ProposeEntryWithDrop(ctx context.Context, e pb.Entry, cancel 
 	}
 	if !f.Immediate {
 		f.Pending = append(f.Pending, e)
+		f.Cancels = append(f.Cancels, cancel)
 		f.mu.Unlock()
 		return nil
 	}
@@ -187,6 +191,7 @@ func (p *Part) Flush(sizes []int, replayUpTo uint64) {
 	f.mu.Lock()
 	ents := f.Pending
 	f.Pending = nil
+	f.Cancels = nil
 	f.Log = append(f.Log, ents...)
 	f.mu.Unlock()
 	for len(ents) > 0 {
@@ -200,6 +205,40 @@ func (p *Part) Flush(sizes []int, replayUpTo uint64) {
 		p.apply(ents[:n], replayUpTo)
 		ents = ents[n:]
 	}
+}
+
+// FlushN commits and applies the first n pending entries as one apply batch.
+func (p *Part) FlushN(n int) {
+	f := p.Raft
+	f.mu.Lock()
+	if n > len(f.Pending) {
+		n = len(f.Pending)
+	}
+	ents := append([]pb.Entry(nil), f.Pending[:n]...)
+	f.Pending = f.Pending[n:]
+	f.Cancels = f.Cancels[n:]
+	f.Log = append(f.Log, ents...)
+	f.mu.Unlock()
+	if len(ents) > 0 {
+		p.apply(ents, 0)
+	}
+}
+
+// DropPending removes pending entry i: raft never commits it (truncated by a new leader).
+// The log indexes of the entries behind it are renumbered, as they would be proposed anew.
+func (p *Part) DropPending(i int) {
+	f := p.Raft
+	f.mu.Lock()
+	defer f.mu.Unlock()
+	if i < 0 || i >= len(f.Pending) {
+		return
+	}
+	f.Pending = append(f.Pending[:i:i], f.Pending[i+1:]...)
+	f.Cancels = append(f.Cancels[:i:i], f.Cancels[i+1:]...)
+	for j := i; j < len(f.Pending); j++ {
+		f.Pending[j].Index--
+	}
+	f.next--
 }
 
 // ApplyLog feeds already numbered entries (e.g. another replica's log) to this partition.
